@@ -38,6 +38,11 @@ def e_lin(c):
     sps, R, fs = apply_gv(c["gv"])
     N, order = c["N"], c["order"]
     BW = c["cut"] * fs
+    # the cutoff as the scalar types a sweep hands over (np.arange(...)*1e9 gives numpy integers, a float32 axis gives float32, x[()] a 0-d array)
+    form = ["float", "float", "np.float64", "np.int64", "np.float32", "0-d", "int"][c["seed"] % 7]
+    BWarg = {"float": float, "np.float64": np.float64, "np.int64": lambda v: np.int64(round(v)), "np.float32": np.float32, "0-d": lambda v: np.asarray(float(v)),
+             "int": lambda v: int(round(v))}[form](BW)
+    BW = float(BWarg)
     rs = np.random.RandomState(c["seed"])
     lpf = c["which"] == "lpf"
     okw = {} if c["default_order"] else {"n": order}
@@ -52,7 +57,7 @@ def e_lin(c):
         X = electrical_signal(x1.copy(), None if nz is None else nz.copy())
         g = Guard()
         g.add_signal("x", X)
-        Y = lib(D.LPF, X, BW, **okw)
+        Y = lib(D.LPF, X, BWarg, **okw)
         contract(Y, "E", 1, N, "LPF output")
         check(Y.signal.dtype.kind == "f", "lpf-output-not-real", str(Y.signal.dtype))
         check((Y.noise is None) == (nz is None), "noise-presence", "LPF")
@@ -104,12 +109,21 @@ def e_lin(c):
         X = optical_signal(x1.copy(), None if nz is None else nz.copy(), n_pol=npol)
         g = Guard()
         g.add_signal("x", X)
-        Y = lib(D.BPF, X, BW, **okw)
+        Y = lib(D.BPF, X, BWarg, **okw)
         contract(Y, "O", npol, N, "BPF output")
         check((Y.noise is None) == (nz is None), "noise-presence", "BPF")
         check(np.array_equal(Y.signal, F(x1).signal), "bpf-signal-depends-on-noise", "")
         if nz is not None:
             check(np.array_equal(Y.noise, F(nz).signal), "bpf-noise-filtered-differently", "")
+        # an object as an amplifier returns it for a real-valued field: the signal keeps its real type, the noise is complex
+        if c["seed"] % 3 == 0:
+            np.random.seed(c["seed"] % 2 ** 32)
+            XE = lib(D.EDFA, optical_signal(x1.real.copy(), n_pol=npol), 10.0, 5.0)
+            YE = lib(D.BPF, XE, BW, **okw)
+            for nm_ in ("signal", "noise"):
+                one = lib(D.BPF, optical_signal(getattr(XE, nm_).copy(), n_pol=2), BW, **okw).signal
+                check(getattr(YE, nm_).shape == one.shape and relerr(getattr(YE, nm_), one) <= 1e-12, "bpf-noise-filtered-differently",
+                      f"{nm_} of an EDFA output (signal dtype {XE.signal.dtype}, noise dtype {XE.noise.dtype}): rel err {relerr(getattr(YE, nm_), one):.2e}")
         if npol == 2:
             for i in (0, 1):
                 yi = lib(D.BPF, optical_signal(x1[i].copy()), BW, **okw)
@@ -127,7 +141,7 @@ def e_lin(c):
             raises(TypeError, D.BPF, bad, BW, tag="bpf-bad-input-type-accepted")
     nt = order != 4 or not (0.05 <= c["cut"] <= 0.3) or npol == 2 or c["noise"]
     return {"nontrivial": bool(nt), "classes": [c["which"], f"order{order}", f"pol{npol}", "noise" if c["noise"] else "clean", c["gv"]["form"],
-                                                 "lowcut" if c["cut"] < 0.05 else "highcut" if c["cut"] > 0.3 else "midcut"]}
+                                                 "lowcut" if c["cut"] < 0.05 else "highcut" if c["cut"] > 0.3 else "midcut", "BW:" + form]}
 
 
 @st.composite
